@@ -134,6 +134,10 @@ RecipOf(x, y, prec, ulps) == x.tag = "fin" /\ y.tag = "fin" /\
     DyLe(DyAbs(DySub(DyMul(FDy(x), FDy(y)), DyOfInt(1))), Dy(BigOfInt(ulps), 1 - prec))
 LeUlp(x, y, prec, ulps) == DyLe(FDy(x), DyAdd(FDy(y), DyShift(DyMulInt(DyAbs(FDy(y)), ulps), 1 - prec)))
 Positive(x) == x.tag = "fin" /\ DySign(FDy(x)) > 0
+\* G = exp(mean of ln x): the rounding error of ln x is relative to |ln x|, so the relative error of G
+\* grows with |log2 G| (data far from 1); allowance in ulps, from a crude bound on |log2 g|
+Log2Bound(g) == LET t == g.e + 15 * Len(g.m) IN (IF t < 0 THEN -t ELSE t) + 15
+MeanIneqUlps(g) == IF g.tag = "fin" /\ g.m # <<>> THEN 8 + 4 * Log2Bound(g) ELSE 8
 
 GeoFailed(e) ==
     IF e.out.tag = "panic" THEN {"C05.no_panic"}
@@ -150,7 +154,7 @@ GeoFailed(e) ==
                  ~DyLe(DyAbs(DySub(FDy(e.stats.sem), DyMul(FDy(e.stats.mean), FDy(e.auxv.tsem)))),
                        DyShift(DyMulInt(DyAbs(FDy(e.stats.sem)), 8), 1 - PrecE(e)))}
          \cup {c \in {"C05.mean_inequality"} :
-                 ~(LeUlp(e.auxv.hmean, e.auxv.gmean, PrecE(e), 8) /\ LeUlp(e.auxv.gmean, e.auxv.amean, PrecE(e), 8))}
+                 ~(LeUlp(e.auxv.hmean, e.auxv.gmean, PrecE(e), MeanIneqUlps(e.auxv.gmean)) /\ LeUlp(e.auxv.gmean, e.auxv.amean, PrecE(e), MeanIneqUlps(e.auxv.gmean)))}
 
 HarmFailed(e) ==
     IF e.out.tag = "panic" THEN {"C05.no_panic"}
@@ -170,7 +174,7 @@ HarmFailed(e) ==
                  ~DyLe(DyAbs(DySub(FDy(e.stats.sem), DyMul(DySq(FDy(e.stats.mean)), FDy(e.auxv.tsem)))),
                        DyShift(DyMulInt(DyAbs(FDy(e.stats.sem)), 8), 1 - PrecE(e)))}
          \cup {c \in {"C05.mean_inequality"} :
-                 ~(LeUlp(e.auxv.hmean, e.auxv.gmean, PrecE(e), 8) /\ LeUlp(e.auxv.gmean, e.auxv.amean, PrecE(e), 8))}
+                 ~(LeUlp(e.auxv.hmean, e.auxv.gmean, PrecE(e), MeanIneqUlps(e.auxv.gmean)) /\ LeUlp(e.auxv.gmean, e.auxv.amean, PrecE(e), MeanIneqUlps(e.auxv.gmean)))}
 
 \* ---------------------------------------------------------------- dispatch
 PropOf(e) == IF PROP = "C06" THEN "C06" ELSE "C01"
